@@ -213,6 +213,10 @@ pub struct PolySpec {
     pub dim: usize,
     pub anchors: Vec<Vec<f64>>,
     pub rows: Vec<RowSpec>,
+    /// row i (after resolution) is multiplied by 2^scales[i % len] - the same half-space at a very
+    /// different magnitude (exact in f64); empty = no scaling
+    #[serde(default)]
+    pub scales: Vec<i8>,
 }
 
 const FACTORS: [f64; 4] = [2.0, 3.0, 1.5, 0.5];
@@ -307,6 +311,19 @@ impl PolySpec {
                 }
             }
         }
+        if !self.scales.is_empty() {
+            for (i, (r, b)) in rows.iter_mut().zip(bias.iter_mut()).enumerate() {
+                let e = self.scales[i % self.scales.len()];
+                if e != 0 {
+                    let k = 2f64.powi(e as i32);
+                    for v in r.iter_mut() {
+                        *v *= k;
+                    }
+                    *b *= k;
+                    tags[i] = "scaled_row";
+                }
+            }
+        }
         (Aff { mat: Mat { rows, cols: n }, bias }, tags)
     }
 }
@@ -328,8 +345,12 @@ pub fn row_spec(n: usize) -> impl Strategy<Value = RowSpec> {
 }
 
 pub fn poly_spec(n: usize, min_rows: usize, max_rows: usize) -> impl Strategy<Value = PolySpec> {
-    (proptest::collection::vec(lattice(n), 1..=3), proptest::collection::vec(row_spec(n), min_rows..=max_rows))
-        .prop_map(move |(anchors, rows)| PolySpec { dim: n, anchors, rows })
+    (
+        proptest::collection::vec(lattice(n), 1..=3),
+        proptest::collection::vec(row_spec(n), min_rows..=max_rows),
+        prop_oneof![4 => Just(Vec::new()), 1 => proptest::collection::vec(prop_oneof![2 => Just(0i8), 1 => -30i8..=30], 1..6)],
+    )
+        .prop_map(move |(anchors, rows, scales)| PolySpec { dim: n, anchors, rows, scales })
 }
 
 /// test points: anchors, their lattice neighbours, free lattice points
